@@ -177,7 +177,7 @@ def monitor (c : Cfg) (seqOut : List (Nat × Nat)) (s : State) (st : Stats) : St
     stuck := inc (stuck c s) st.stuck,
     badout := inc (badOut c s) st.badout,
     prefixviol := inc (!isPrefix s.written seqOut) st.prefixviol,
-    consviol := inc (consViol c s) st.consviol,
+    consviol := inc (!s.failed && consViol c s) st.consviol,
     capviol := inc (capViol c s) st.capviol,
     overcap := inc (overCap c s) st.overcap,
     unordpartialviol := inc (decide (unordSize s > unordCapOf c + staleCount s)) st.unordpartialviol,
